@@ -116,10 +116,10 @@ var (
 	tNull  = valuni.Null()
 )
 
-func iv(i int64) valuni.Val     { return valuni.IntV(i) }
-func sv(s string) valuni.Val    { return valuni.StrV(s) }
-func bv(b bool) valuni.Val      { return valuni.BoolV(b) }
-func fv(f float64) valuni.Val   { return valuni.FloatV(f) }
+func iv(i int64) valuni.Val   { return valuni.IntV(i) }
+func sv(s string) valuni.Val  { return valuni.StrV(s) }
+func bv(b bool) valuni.Val    { return valuni.BoolV(b) }
+func fv(f float64) valuni.Val { return valuni.FloatV(f) }
 func optI(p *int64) valuni.Val {
 	if p == nil {
 		return valuni.NoneV()
@@ -260,7 +260,10 @@ func buildSpecs() []*fnSpec {
 		Src: `fn set(v: int) {
     cnt = v;
 }`,
-		Model: func(st *state, e env, a []valuni.Val) (valuni.Val, *failure) { st.cnt = a[0].I; return valuni.NullV(), nil },
+		Model: func(st *state, e env, a []valuni.Val) (valuni.Val, *failure) {
+			st.cnt = a[0].I
+			return valuni.NullV(), nil
+		},
 		GenOK: gen(pickInt)})
 	add(&fnSpec{Name: "incr", Ret: tInt, Reads: []string{"cnt"}, Writes: []string{"cnt"},
 		Src: `fn incr() -> int {
@@ -274,13 +277,19 @@ func buildSpecs() []*fnSpec {
     cnt = cnt + d;
     return cnt;
 }`,
-		Model: func(st *state, e env, a []valuni.Val) (valuni.Val, *failure) { st.cnt += a[0].I; return iv(st.cnt), nil },
+		Model: func(st *state, e env, a []valuni.Val) (valuni.Val, *failure) {
+			st.cnt += a[0].I
+			return iv(st.cnt), nil
+		},
 		GenOK: gen(pickInt)})
 	add(&fnSpec{Name: "main", Ret: tNull, Reads: []string{"cnt"}, Writes: []string{"cnt"},
 		Src: `fn main() {
     cnt += 1000;
 }`,
-		Model: func(st *state, e env, a []valuni.Val) (valuni.Val, *failure) { st.cnt += 1000; return valuni.NullV(), nil },
+		Model: func(st *state, e env, a []valuni.Val) (valuni.Val, *failure) {
+			st.cnt += 1000
+			return valuni.NullV(), nil
+		},
 		GenOK: gen(), Weight: 1})
 
 	// ---- list ------------------------------------------------------------------------------
@@ -335,7 +344,10 @@ func buildSpecs() []*fnSpec {
     let e: [int] = [];
     items = e;
 }`,
-		Model: func(st *state, e env, a []valuni.Val) (valuni.Val, *failure) { st.items = nil; return valuni.NullV(), nil },
+		Model: func(st *state, e env, a []valuni.Val) (valuni.Val, *failure) {
+			st.items = nil
+			return valuni.NullV(), nil
+		},
 		GenOK: gen(), Weight: 1})
 	add(&fnSpec{Name: "idx", Params: []param{p("i", tInt)}, Ret: tInt, Reads: []string{"items"},
 		Src: `fn idx(i: int) -> int {
@@ -622,8 +634,12 @@ fn catch_deep(n: int) -> int {
 			}
 			return a[0], nil
 		},
-		GenOK:   func(r *fw.Rng, st *state, e env) []valuni.Val { return []valuni.Val{iv(fw.Pick(r, []int64{0, 1, 64, maxI}))} },
-		GenFail: func(r *fw.Rng, st *state, e env) []valuni.Val { return []valuni.Val{iv(fw.Pick(r, []int64{-1, -2, minI}))} }})
+		GenOK: func(r *fw.Rng, st *state, e env) []valuni.Val {
+			return []valuni.Val{iv(fw.Pick(r, []int64{0, 1, 64, maxI}))}
+		},
+		GenFail: func(r *fw.Rng, st *state, e env) []valuni.Val {
+			return []valuni.Val{iv(fw.Pick(r, []int64{-1, -2, minI}))}
+		}})
 	add(&fnSpec{Name: "fail_deep", Params: []param{p("n", tInt)}, Ret: tInt,
 		Src: `fn fail_deep(n: int) -> int {
     let r = thrower(n);
@@ -632,7 +648,9 @@ fn catch_deep(n: int) -> int {
 		Model: func(st *state, e env, a []valuni.Val) (valuni.Val, *failure) {
 			return valuni.Val{}, &failure{Kind: "UncaughtThrow", Msg: "deep"}
 		},
-		GenFail: func(r *fw.Rng, st *state, e env) []valuni.Val { return []valuni.Val{iv(fw.Pick(r, []int64{0, 1, 3, 30}))} }})
+		GenFail: func(r *fw.Rng, st *state, e env) []valuni.Val {
+			return []valuni.Val{iv(fw.Pick(r, []int64{0, 1, 3, 30}))}
+		}})
 	add(&fnSpec{Name: "fail_in_try_loop", Params: []param{p("n", tInt)}, Ret: tInt, Reads: []string{"cnt"}, Writes: []string{"cnt"},
 		Src: `fn fail_in_try_loop(n: int) -> int {
     let i = 0;
@@ -661,7 +679,9 @@ fn catch_deep(n: int) -> int {
 			}
 			return iv(i), nil
 		},
-		GenOK:   func(r *fw.Rng, st *state, e env) []valuni.Val { return []valuni.Val{iv(fw.Pick(r, []int64{-1, 0, 1, 2}))} },
+		GenOK: func(r *fw.Rng, st *state, e env) []valuni.Val {
+			return []valuni.Val{iv(fw.Pick(r, []int64{-1, 0, 1, 2}))}
+		},
 		GenFail: func(r *fw.Rng, st *state, e env) []valuni.Val { return []valuni.Val{iv(fw.Pick(r, []int64{3, 4, 50}))} }})
 	add(&fnSpec{Name: "div", Params: []param{p("a", tInt), p("b", tInt)}, Ret: tInt,
 		Src: `fn div(a: int, b: int) -> int {
@@ -734,7 +754,10 @@ fn catch_deep(n: int) -> int {
     flag = !flag;
     flag
 }`,
-		Model: func(st *state, e env, a []valuni.Val) (valuni.Val, *failure) { st.flag = !st.flag; return bv(st.flag), nil },
+		Model: func(st *state, e env, a []valuni.Val) (valuni.Val, *failure) {
+			st.flag = !st.flag
+			return bv(st.flag), nil
+		},
 		GenOK: gen(), Weight: 3})
 	add(&fnSpec{Name: "remember", Params: []param{p("o", valuni.Opt(tInt))}, Ret: valuni.Opt(tInt), Reads: []string{"last"}, Writes: []string{"last"},
 		Src: `fn remember(o: ?int) -> ?int {
@@ -806,7 +829,9 @@ fn catch_deep(n: int) -> int {
 			st.cfgA, st.cfgB = x.I, y.S
 			return iv(old), nil
 		},
-		GenOK: func(r *fw.Rng, st *state, e env) []valuni.Val { return []valuni.Val{cfgVal(pickInt(r).I, pickStr(r).S)} }})
+		GenOK: func(r *fw.Rng, st *state, e env) []valuni.Val {
+			return []valuni.Val{cfgVal(pickInt(r).I, pickStr(r).S)}
+		}})
 	add(&fnSpec{Name: "cfg_b", Ret: tStr, Reads: []string{"cfg"},
 		Src: `fn cfg_b() -> str {
     cfg.b
@@ -853,10 +878,15 @@ fn catch_deep(n: int) -> int {
 event fn tick(elapsed: int) {
     cnt = cnt + elapsed;
 }`,
-		Model: func(st *state, e env, a []valuni.Val) (valuni.Val, *failure) { st.cnt += a[0].I; return valuni.NullV(), nil },
+		Model: func(st *state, e env, a []valuni.Val) (valuni.Val, *failure) {
+			st.cnt += a[0].I
+			return valuni.NullV(), nil
+		},
 		GenOK: gen(pickInt)})
 	add(&fnSpec{Name: annotFn, Only: "trigger", Literal: true, RetAny: true, Ret: valuni.List(tInt), Reads: []string{"cnt"},
-		Model: func(st *state, e env, a []valuni.Val) (valuni.Val, *failure) { return valuni.ListV(iv(st.cnt*20 + 3)), nil },
+		Model: func(st *state, e env, a []valuni.Val) (valuni.Val, *failure) {
+			return valuni.ListV(iv(st.cnt*20 + 3)), nil
+		},
 		GenOK: gen()})
 
 	// ---- spawn variant -------------------------------------------------------------------------
@@ -893,7 +923,9 @@ fn fanout_fail() {
 			}
 			return iv(1002), nil
 		},
-		GenOK: func(r *fw.Rng, st *state, e env) []valuni.Val { return []valuni.Val{iv(fw.Pick(r, []int64{5, 1, maxI, 0, -3}))} }, Weight: 6})
+		GenOK: func(r *fw.Rng, st *state, e env) []valuni.Val {
+			return []valuni.Val{iv(fw.Pick(r, []int64{5, 1, maxI, 0, -3}))}
+		}, Weight: 6})
 	return out
 }
 
